@@ -32,7 +32,7 @@ THEOREMS = [
  'C01.ignored_silent', 'C01.bare_prefix_silent', 'C01.bare_prefix_never_owner', 'C01.dispatch_requires_not_ignored', 'C01.ignore_flag_ignored', 'C01.ignores_db_ignored',
  'C01.channel_ignored_silent', 'C01.received_dispatch_requires', 'C01.channel_ban_ignored', 'C01.trusted_never_ignored',
  'C01.flood_dispatch_requires', 'C01.flood_punishment_ignores',
- 'C01.config_write_guard', 'C01.readonly_never_written',
+ 'C01.config_write_guard', 'C01.config_channel_each_checked', 'C01.config_channel_stops', 'C01.readonly_never_written', 'C01.refusals_raise',
  'C01.defaults_have_antiowner', 'C01.defaults_drop_owner', 'C01.defaults_antiowner_not_owner', 'C01.shipped_defaults_ok',
  'C01.required_present', 'C01.required_rows_guarded', 'C01.inventory_names_valid', 'C01.plugin_names_canonical', 'C01.callgraph_ok', 'C01.defaults_mutators_ok', 'C01.gate_shape_ok',
 ]
@@ -51,6 +51,7 @@ PLUGINS_QUICK = ['Owner', 'Misc', 'User', 'Admin', 'Config', 'Channel', 'Utiliti
                  'Plugin', 'Network', 'Karma', 'Later', 'BadWords', 'Conditional', 'Filter', 'Math', 'Relay', 'Services', 'Unix', 'MessageParser']
 HERE = os.path.dirname(os.path.abspath(__file__))
 NICK = 'test'
+STATUSMSG = '@+'      # advertised to the bot through a real 005 at boot
 CHAN = '#c'
 OTHERCHAN = '#d'
 
@@ -229,6 +230,7 @@ ROLES = {
 }
 
 DEFAULT_CAPS = []
+DEFAULT_NOCAP = []
 ROLE_USER = {'owner': 'vown', 'admin': 'vadm', 'chanop': 'vop', 'plain': 'vreg', 'secure': 'vsec', 'anti': 'vanti', 'ignored': 'vign'}
 
 class World(object):
@@ -482,6 +484,10 @@ def address(form, text):
         return CHAN, '%s, %s' % (text, NICK), CHAN
     if form == 'other':
         return OTHERCHAN, '@' + text, OTHERCHAN
+    if form == 'status@':
+        return '@' + CHAN, '@' + text, CHAN       # STATUSMSG target (ops of #c): still a message to the channel #c
+    if form == 'status+':
+        return '+' + CHAN, '@' + text, CHAN
     raise ValueError(form)
 
 # ------------------------------------------------------------------------------------------
@@ -665,7 +671,7 @@ def explore(ctx, b, w, table, required, n_extra):
                            ([hs[(i + len(name)) % 4], hs[(i + len(name) + 2) % 4]] if ctx.thorough else [hs[(i + len(name)) % 4]])):
                 if name == 'owner' and holder in ('user', 'defaults'):
                     continue    # UserCapabilitySet refuses -owner; the defaults already hold it
-                for form in (['char', 'private', 'other'] if holder in ('chan', 'userchan') else ['char']):
+                for form in (['char', 'private', 'other', 'status@', 'status+'] if holder in ('chan', 'userchan') else ['char', ['status@', 'status+'][(i + len(name)) % 2]]):
                     role = 'anti'
                     sc = Scenario(plugin=plugin, path=path, spec=spec, allow_extra=ae, role=role, form=form,
                                   wrapper=['direct', 'qualified', 'nested', 'aka'][(i + len(name)) % 4] if wrapper_ok('aka') and wrapper_ok('nested') else 'direct',
@@ -714,7 +720,7 @@ def explore(ctx, b, w, table, required, n_extra):
         return route_cache[k2]
     unroutable = []
     base_snap = [snapshot(b)]
-    for sc in scen:
+    def run_scenario(sc, variant=None):
         plugin, path = sc.plugin, sc.path
         routed = None
         for qualified in ([True] if sc.wrapper == 'qualified' else [False, True]):
@@ -728,7 +734,7 @@ def explore(ctx, b, w, table, required, n_extra):
                 break
         if not routed:
             unroutable.append((plugin, path, sc.wrapper))
-            continue
+            return
         target, full, mchan = address(sc.form, text)
         prefix = ROLES[sc.role]
         # which channel would a channel-capability converter look at?
@@ -769,9 +775,9 @@ def explore(ctx, b, w, table, required, n_extra):
             # the message the gate will be given at this wrapper's re-dispatch site, according to the model
             # (for a scheduled replay nobody is talking when the event fires: the current message is empty)
             if sc.wrapper == 'scheduled':
-                site_q = 'site\tscheduled\t%s\t%s\t%s\t%s\t%s\t0' % (wire.enc(''), wire.enc(''), wire.enc(prefix), wire.enc(target), wire.enc(''))
+                site_q = 'site\tscheduled\t%s\t%s\t%s\t%s\t%s\t0' % (wire.enc(''), wire.enc(''), wire.enc(prefix), wire.enc(target), wire.enc(STATUSMSG))
             else:
-                site_q = 'site\t%s\t%s\t%s\t%s\t%s\t%s\t0' % (SITE_OF[sc.wrapper], wire.enc(prefix), wire.enc(target), wire.enc(''), wire.enc(''), wire.enc(''))
+                site_q = 'site\t%s\t%s\t%s\t%s\t%s\t%s\t0' % (SITE_OF[sc.wrapper], wire.enc(prefix), wire.enc(target), wire.enc(''), wire.enc(''), wire.enc(STATUSMSG))
             target_key = (plugin, tuple(cmd))
             Obs.execute = (lambda p, c, real=real, tk=target_key: True if (p, c) in WRAPPER_CMDS else (real if (p, c) == tk else False))
             before = base_snap[0] if sc.setup is None else snapshot(b)
@@ -846,25 +852,29 @@ def explore(ctx, b, w, table, required, n_extra):
                 problems.append('the command body ran')
             if changed:
                 problems.append('state changed: %s' % changed)
-            if cls[0] not in ('nocap', 'error', 'help'):
+            if cls[0] not in (('nocap', 'error', 'help', 'silent') if variant else ('nocap', 'error', 'help')):
                 problems.append('output is not a single error (or usage) reply: %r' % (cls,))
             if problems:
                 ok = False
                 msg = '%s (%s) calls %s %s as %r: must be refused because %s; but %s' % (sc.role, prefix, plugin, ' '.join(path), full, sc.why, '; '.join(problems))
+        if variant:
+            # the refusal text is configured away: compare only refused / passed
+            impl = 'passed' if (gate_hit and (body_ran or not real)) else 'refused'
         tags = ['role:' + sc.role, 'form:' + sc.form, 'wrap:' + sc.wrapper, 'kind:' + sc.kind, 'impl:' + impl.split('|')[0].split(':')[0] + (':' + impl.split(':')[1].split('|')[0] if impl.startswith('gate:') else '')]
         if sc.expect_deny: tags.append('oracle:deny')
         if sc.expect_silent: tags.append('oracle:silent')
         if real: tags.append('real')
+        if variant: tags.append('variant:' + variant)
         c = Case({'op': 'call', 'plugin': plugin, 'path': list(path), 'role': sc.role, 'prefix': prefix, 'target': target, 'text': full,
-                  'setup': list(sc.setup) if sc.setup else None, 'real': real, 'why': sc.why},
-                 impl=impl, oracle_ok=ok, oracle_msg=msg, tags=tags, kind=sc.kind)
+                  'setup': list(sc.setup) if sc.setup else None, 'real': real, 'why': sc.why, 'variant': variant},
+                 impl=impl, oracle_ok=ok, oracle_msg=(('[configuration %s] ' % variant) if variant and msg else '') + msg, tags=tags, kind=sc.kind)
         if seen_by_gate:
             c.impl = impl + ' @%s %s' % seen_by_gate[0]
         cases.append(c)
         DEBUG[id(c)] = [str(m).strip() for m in out]
         if sc.kind == 'sched-refused':
             c.impl = None       # the inner command was never stored: nothing to compare with the model
-            continue
+            return
         lines.append(site_q); pend.append(None)
         lines.append(q)
         def fill0(o, ign, c=c, real=real, spec=sc.spec):
@@ -888,14 +898,44 @@ def explore(ctx, b, w, table, required, n_extra):
             if oc[0] == 'noCapability':
                 return 'gate:allow|nocap:' + wire.dec(oc[1])
             return 'gate:allow|stopped'
-        def fill(o, ign, c=c, real=real, spec=sc.spec, seen=bool(seen_by_gate), fill0=None):
+        def fill(o, ign, c=c, real=real, spec=sc.spec, seen=bool(seen_by_gate), fill0=None, variant=variant):
             r0 = fill0(o, ign)
+            if variant:
+                r0 = 'passed' if (r0 in ('gate:allow', 'gate:allow|body')) else ('refused' if r0 != 'gate:allow|stopped' else 'refused')
             if seen and SITE_OUT[0] not in (None, 'none', 'bad-op'):
                 f = SITE_OUT[0].split('\t')
                 r0 += ' @%s %s' % (wire.dec(f[0]), wire.dec_opt(f[1]))
             return r0
-        fill.__defaults__ = fill.__defaults__[:-1] + (fill0,)
+        fill.__defaults__ = fill.__defaults__[:-2] + (fill0, variant)
         pend.append((c, fill))
+    for sc in scen:
+        run_scenario(sc)
+
+    # ---- every refusal again with the refusal message configured away (supybot.replies.noCapability = ''):
+    # a refusal is a raise, whatever the text
+    def silent_denials(on, per_channel=False):
+        g = conf.supybot.replies.noCapability
+        if per_channel:
+            g.get(CHAN).setValue('' if on else DEFAULT_NOCAP[0])
+            try:
+                g.get(':test').get(CHAN).setValue('' if on else DEFAULT_NOCAP[0])
+            except Exception:
+                pass
+        else:
+            g.setValue('' if on else DEFAULT_NOCAP[0])
+    DEFAULT_NOCAP[:] = [conf.supybot.replies.noCapability()]
+    denied = [sc for sc in scen if sc.expect_deny and sc.kind in ('enum', 'anti', 'default-off')]
+    if not ctx.thorough:
+        denied = [sc for n_, sc in enumerate(denied) if (n_ + ctx.seed) % 4 == 0 or sc.plugin in ('VtGate', 'Config')]
+    silent_denials(True)
+    base_snap[0] = snapshot(b)
+    try:
+        for sc in denied:
+            run_scenario(sc, 'silent-denial')
+    finally:
+        silent_denials(False)
+    base_snap[0] = snapshot(b)
+
     # ================= configuration writes =================
     registry = b.registry
     cfgmod = sys.modules.get('Config.plugin') or sys.modules.get('supybot.plugins.Config.plugin')
@@ -920,33 +960,47 @@ def explore(ctx, b, w, table, required, n_extra):
             if not getattr(g, '_opSettable', True):
                 out.append(parts[:i + 1])
         return out
-    if 'Config' in have:
+    MULTI = ('supybot.plugins.VtGate.open', 'supybot.reply.withNickPrefix', 'supybot.plugins.VtGate.locked')
+    def chan_value(name, c):
+        try:
+            g = group_of(name)
+            return (str(g.get(c)) if c in g._children else None, str(g.get(':test').get(c)) if (':test' in g._children and c in g.get(':test')._children) else None)
+        except Exception as ex:
+            return repr(ex)
+    def run_config(variant):
         for (name, value, kind) in CFG:
             if name.startswith('supybot.plugins.VtGate') and 'VtGate' not in have:
                 continue
+            chan_sets = [None]
+            if kind == 'channel':
+                chan_sets = [CHAN, OTHERCHAN] + ([CHAN + ',' + OTHERCHAN, OTHERCHAN + ',' + CHAN] if name in MULTI else [])
             for role in cfg_roles:
-                for ch in ([CHAN, OTHERCHAN] if kind == 'channel' else [None]):
+                for chs in chan_sets:
+                    listed = chs.split(',') if chs else []
                     form = 'char' if (len(cases) % 2 == 0) else 'private'
                     prefix = ROLES[role]
                     if kind == 'global':
-                        text = 'config %s %s' % (name, quote(value)); gname = name
+                        text = 'config %s %s' % (name, quote(value)); gnames = [name]
                     else:
-                        text = 'config channel %s %s %s' % (ch, name, quote(value)); gname = name + '.' + ch
+                        text = 'config channel %s %s %s' % (chs, name, quote(value)); gnames = [name + '.' + c for c in listed]
                     target, full, mchan = address(form, text)
-                    parts = registry.split(gname); partsl = registry.split(gname.lower())
+                    partsL = [registry.split(g) for g in gnames]; partslL = [registry.split(g.lower()) for g in gnames]
                     try:
-                        nons = non_settable(gname)
+                        nons = non_settable(gnames[0])
                     except Exception:
                         nons = non_settable(name)
                     # oracle by construction
                     readonly = (not conf.supybot.commands.allowShell()) and (name.startswith('supybot.directories') or name == 'supybot.commands.allowShell')
-                    may = (role == 'owner' and not readonly) or (role == 'chanop' and kind == 'channel' and ch == CHAN and not readonly
-                                                               and not name.endswith('locked'))
+                    def permitted(c):
+                        return (role == 'owner' and not readonly) or (role == 'chanop' and kind == 'channel' and c == CHAN and not readonly
+                                                                      and not name.endswith('locked'))
+                    may_all = all(permitted(c) for c in (listed or [None]))
                     silent = role == 'ignored'
                     try:
                         old = str(group_of(name)) if kind == 'global' else None
                     except Exception:
                         old = None
+                    vals_before = {c: chan_value(name, c) for c in listed}
                     send_db()
                     lines.append('ignored\t' + wire.enc(prefix)); pend.append(None)
                     Obs.execute = None
@@ -955,49 +1009,75 @@ def explore(ctx, b, w, table, required, n_extra):
                         out = deliver(b, prefix, target, full)
                     after = snapshot(b)
                     changed = snap_diff(before, after)
+                    written = [c for c in listed if chan_value(name, c) != vals_before[c]]
                     cls = classify(out)
-                    if cls[0] == 'silent': impl = 'silent'
-                    elif cls[0] == 'nocap': impl = 'nocap:' + cls[1]
-                    elif cls[0] == 'error' and 'not writeable' in cls[1]: impl = 'readOnly'
-                    elif cls[0] == 'reply' and 'The operation succeeded' in cls[1]: impl = 'pass'
-                    else: impl = 'other:' + cls[0]
+                    if cls[0] == 'silent': outc = 'silent'
+                    elif cls[0] == 'nocap': outc = 'nocap:' + cls[1]
+                    elif cls[0] == 'error' and 'not writeable' in cls[1]: outc = 'readOnly'
+                    elif cls[0] == 'reply' and 'The operation succeeded' in cls[1]: outc = 'pass'
+                    else: outc = 'other:' + cls[0]
+                    if variant and outc != 'pass' and not silent:
+                        outc = 'refused'
+                    impl = outc if not listed or len(listed) == 1 else 'written:%s|%s' % (','.join(written), outc)
                     ok = True; msg = ''
                     if silent and (out or changed):
                         ok = False; msg = 'ignored caller %s wrote/was answered: %r changed=%r' % (prefix, [str(m).strip() for m in out], changed)
-                    elif not silent and not may and (changed or cls[0] not in ('nocap', 'error')):
-                        ok = False
-                        msg = '%s (%s) sets %s via %r: must be refused (%s); but state changed=%r, reply=%r' % (
-                            role, prefix, gname, full, 'read-only name' if readonly else 'caller lacks the capability for this name', changed, cls)
-                    c = Case({'op': 'config', 'name': gname, 'role': role, 'prefix': prefix, 'target': target, 'text': full},
+                    elif not silent:
+                        bad_written = [c for c in written if not permitted(c)]
+                        acceptable = ('nocap', 'error', 'silent') if variant else ('nocap', 'error')
+                        if bad_written or (not listed and not may_all and changed) or (not may_all and cls[0] not in acceptable):
+                            ok = False
+                            msg = '%s%s (%s) sets %s via %r: must be refused for %s (%s); but channels written=%r, state changed=%r, reply=%r' % (
+                                ('[configuration %s] ' % variant) if variant else '', role, prefix, name, full,
+                                [c for c in (listed or [name]) if not permitted(c)],
+                                'read-only name' if readonly else 'the caller lacks the capability for it', written, changed, cls)
+                    c = Case({'op': 'config', 'name': name, 'channels': listed, 'role': role, 'prefix': prefix, 'target': target, 'text': full, 'variant': variant},
                              impl=impl, oracle_ok=ok, oracle_msg=msg, kind='config',
-                             tags=['config', 'cfg:' + impl.split(':')[0], 'role:' + role] + (['oracle:deny'] if not may and not silent else []))
+                             tags=['config', 'cfg:' + outc.split(':')[0], 'role:' + role] + (['oracle:deny'] if not may_all and not silent else [])
+                                  + (['cfg:multi'] if len(listed) > 1 else []) + (['variant:' + variant] if variant else []))
                     cases.append(c)
-                    lines.append('cfg\t%s\t%s\t%d\t%s\t%s\t%s' % (wire.enc(prefix), wire.enc_opt(mchan), 1 if conf.supybot.commands.allowShell() else 0,
-                                                                  wire.enc_list(parts), wire.enc_list(partsl),
-                                                                  ','.join('.'.join(wire.enc(x) for x in pth) for pth in nons) or '-'))
-                    def fillc(o, ign):
+                    enc_paths = lambda L: ','.join('.'.join(wire.enc(x) for x in pth) for pth in L) or '-'
+                    if len(listed) > 1:
+                        lines.append('cfgmulti\t%s\t%s\t%d\t%s\t%s\t%s\t%s' % (wire.enc(prefix), wire.enc_opt(mchan), 1 if conf.supybot.commands.allowShell() else 0,
+                                                                                 wire.enc_list(listed), enc_paths(partsL), enc_paths(partslL), enc_paths(nons)))
+                    else:
+                        lines.append('cfg\t%s\t%s\t%d\t%s\t%s\t%s' % (wire.enc(prefix), wire.enc_opt(mchan), 1 if conf.supybot.commands.allowShell() else 0,
+                                                                      wire.enc_list(partsL[0]), wire.enc_list(partslL[0]), enc_paths(nons)))
+                    def fillc(o, ign, multi=(len(listed) > 1), variant=variant):
                         if ign.startswith('1') or ign.startswith('crash'):
-                            return 'silent'
+                            return 'written:|silent' if multi else 'silent'
                         f = o.split('\t')
-                        if f[0] == 'noCapability':
-                            return 'nocap:' + wire.dec(f[1])
-                        return f[0]
+                        if multi:
+                            w = wire.dec_list(f[0]); f = f[1:]
+                        oc = 'nocap:' + wire.dec(f[1]) if f[0] == 'noCapability' else f[0]
+                        if variant and oc != 'pass':
+                            oc = 'refused'
+                        return ('written:%s|%s' % (','.join(w), oc)) if multi else oc
                     pend.append((c, fillc))
                     # put things back
-                    if changed:
+                    if changed or written:
                         try:
                             if kind == 'global' and old is not None:
                                 group_of(name).set(old) if old.strip() else group_of(name).setValue(type(group_of(name)())())
                             elif kind == 'channel':
-                                group_of(name).get(ch).set(str(group_of(name)))
-                                try:
-                                    group_of(name).get(':test').get(ch).set(str(group_of(name)))
-                                except Exception:
-                                    pass
+                                for c2 in listed:
+                                    group_of(name).get(c2).set(str(group_of(name)))
+                                    try:
+                                        group_of(name).get(':test').get(c2).set(str(group_of(name)))
+                                    except Exception:
+                                        pass
                         except Exception:
                             pass
                         if name == 'supybot.capabilities':
                             conf.supybot.capabilities.setValue(list(DEFAULT_CAPS))
+    if 'Config' in have:
+        run_config(None)
+        for per_channel in (False, True):
+            silent_denials(True, per_channel)
+            try:
+                run_config('silent-denial' + ('-in-channel' if per_channel else ''))
+            finally:
+                silent_denials(False, per_channel)
 
     # ================= supybot.capabilities is assigned =================
     VOC = ['owner', '-owner', 'Owner', '-OWNER', 'admin', '-admin', 'foo', '-foo', CHAN + ',op', CHAN + ',-op', 'trusted', '-trusted', 'scheduler.add']
@@ -1635,6 +1715,8 @@ def boot(ctx):
         plugs = PLUGINS_QUICK + sorted(n for n in os.listdir(pdir) if os.path.isfile(os.path.join(pdir, n, 'plugin.py')) and n not in PLUGINS_QUICK)
     b = bot.full(plugins=plugs + ['VtGate'], plugin_dirs=[os.path.join(HERE, 'plugins')], nick=NICK)
     bot.register_welcome(b)
+    b.irc.feedMsg(b.ircmsgs.IrcMsg(':server 005 %s STATUSMSG=%s CHANTYPES=#& :are supported by this server' % (NICK, STATUSMSG)))
+    bot.drain(b)
     install_shims(b)
     install_clock()
     w = setup_world(b)
